@@ -16,6 +16,12 @@ VIEWS = [  # (view id, file, impl name occurrence, base text (distinguishing fie
     ('copyright::Header', '/repo/debian-copyright/src/lossless.rs', 'Header', 'Format: https://www.debian.org/doc/packaging-manuals/copyright-format/1.0/\n', 'copyright_header'),
     ('dep3::PatchHeader', '/repo/dep3/src/lossless.rs', 'PatchHeader', 'X-Base: 1\n', 'dep3'),
 ]
+VIEW_TYPES = {
+    'control_source': 'debian_control::lossless::control::Source', 'control_binary': 'debian_control::lossless::control::Binary',
+    'apt_source': 'debian_control::lossless::apt::Source', 'apt_package': 'debian_control::lossless::apt::Package',
+    'apt_release': 'debian_control::lossless::apt::Release', 'buildinfo': 'debian_control::lossless::buildinfo::Buildinfo',
+    'copyright_header': 'debian_copyright::lossless::Header', 'dep3': 'dep3::lossless::PatchHeader',
+}
 OVERRIDES = {
     ('control::Source', 'name'): 'Source', ('control::Binary', 'name'): 'Package', ('apt::Package', 'name'): 'Package',
     'md5sum': 'MD5sum', 'sha256': 'SHA256', 'sha1': 'SHA1', 'sha512': 'SHA512', 'description_md5': 'Description-md5',
@@ -102,7 +108,20 @@ with open('/verif/harness/src/stages/acc_gen.rs', 'w') as o:
             o.write('            if clear { x.set_%s(%s); return ("<none>".to_string(), norm(&x.%s())); }\n' % (acc, clear, acc))
         o.write('            let a = %s; let want = norm(&a); x.set_%s(a); (want, norm(&x.%s()))\n' % (val, acc, acc))
         o.write('        })) });\n')
-    o.write('    v\n}\n\npub const SKIPPED: &[(&str, &str, &str)] = &[\n')
+    o.write('    v\n}\n\n')
+    # the same calls on a LIVE view (for sequences of several setters on one paragraph): apply_<ctor>(view, index, clear)
+    by_ctor = {}
+    for b in bindings: by_ctor.setdefault(b[1], []).append(b)
+    for ctor, bs in by_ctor.items():
+        o.write('/// (accessor, documented field, has a clearing form) of the calls apply_%s knows, by index\n' % ctor)
+        o.write('pub const CALLS_%s: &[(&str, &str, bool)] = &[%s];\n' % (ctor.upper(), ', '.join('("%s", "%s", %s)' % (b[3], b[4], 'true' if b[7] else 'false') for b in bs)))
+        o.write('pub fn apply_%s(x: &mut %s, idx: usize, clear: bool) -> (String, String) {\n    match idx {\n' % (ctor, VIEW_TYPES[ctor]))
+        for i, (view, c, base, acc, doc, ty, val, clr) in enumerate(bs):
+            o.write('        %d => {\n' % i)
+            if clr: o.write('            if clear { x.set_%s(%s); return ("<none>".to_string(), norm(&x.%s())); }\n' % (acc, clr, acc))
+            o.write('            let _ = clear; let a = %s; let want = norm(&a); x.set_%s(a); (want, norm(&x.%s()))\n        }\n' % (val, acc, acc))
+        o.write('        _ => unreachable!(),\n    }\n}\n\n')
+    o.write('pub const SKIPPED: &[(&str, &str, &str)] = &[\n')
     for view, fn, args, why in skipped: o.write('    ("%s", "%s", "%s"),\n' % (view, fn, why))
     o.write('];\n')
 print(len(bindings), 'bindings;', len(skipped), 'skipped')
